@@ -1764,7 +1764,9 @@ impl FunctionCompiler<'_> {
                         let default_val =
                             self.compile_and_cast_with_args(default.body, no_load, return_ty);
 
-                        if let Some(default_val) = default_val {
+                        if *self.tys[self.loc][default.body] == Ty::AlwaysJumps {
+                            self.compile_unreachable(Some("end of noreturn switch arm reached"));
+                        } else if let Some(default_val) = default_val {
                             self.builder
                                 .ins()
                                 .jump(exit_block, &[BlockArg::Value(default_val)]);
@@ -1830,7 +1832,9 @@ impl FunctionCompiler<'_> {
                         let default_val =
                             self.compile_and_cast_with_args(default.body, no_load, return_ty);
 
-                        if let Some(default_val) = default_val {
+                        if *self.tys[self.loc][default.body] == Ty::AlwaysJumps {
+                            self.compile_unreachable(Some("end of noreturn switch arm reached"));
+                        } else if let Some(default_val) = default_val {
                             self.builder
                                 .ins()
                                 .jump(exit_block, &[BlockArg::Value(default_val)]);
@@ -1857,7 +1861,11 @@ impl FunctionCompiler<'_> {
 
                     let body_val = self.compile_and_cast_with_args(arm.body, no_load, return_ty);
 
-                    if let Some(body_val) = body_val {
+                    // an arm that always jumps away (`str => { return inner; }`)
+                    // has no value to hand to the end of the switch
+                    if *self.tys[self.loc][arm.body] == Ty::AlwaysJumps {
+                        self.compile_unreachable(Some("end of noreturn switch arm reached"));
+                    } else if let Some(body_val) = body_val {
                         self.builder
                             .ins()
                             .jump(exit_block, &[BlockArg::Value(body_val)]);
